@@ -20,6 +20,10 @@ def check(ctx: Ctx) -> None:
     CL.r_return_exceptions(ctx, "R13.3", ("flush",))
     CL.r_gather_complete(ctx, "R13.4", ("flush",))
     r_once_forgotten(ctx, "R13.5")
+    # "no longer remembered" is observable through cancel(): an id that is in no registry is unknown (TaskNotFound), whatever
+    # else the pool knows about it
+    from .cancel import r_lookup_table
+    r_lookup_table(ctx, "R13.6")
 
 
 def r_once_forgotten(ctx: Ctx, rule: str) -> None:
